@@ -158,7 +158,17 @@ def translate():
     except Exception:
         rep['tags'] = {'error': out4[-500:]}
         rep['untranslatable'].append({'name': 'io_tags', 'group': 'Tags', 'why': out4[-500:]})
-    return rep, out + out2 + out3 + out4
+    # the pack-expansion layers clamp / shuffle / covariant_cast (Gen_Packs.v)
+    rc5, out5 = sh([sys.executable, os.path.join(VERIF, 'tools', 'cxx_packs.py'), REPO, os.path.join(COQ, 'gen')], timeout=300)
+    try:
+        rep['packs'] = json.loads(out5.strip().split('\n')[-1])
+        for layer, d in rep['packs'].items():
+            if 'Unknown' in d['element'] or 'Unknown' in d['at']:
+                rep['untranslatable'].append({'name': f'gen_{layer}_elem / gen_{layer}_at', 'group': 'Packs', 'why': f"{layer}: {d['element']} ; {d['at']}"})
+    except Exception:
+        rep['packs'] = {'error': out5[-500:]}
+        rep['untranslatable'].append({'name': 'pack layers', 'group': 'Packs', 'why': out5[-500:]})
+    return rep, out + out2 + out3 + out4 + out5
 
 
 def coq_makefile():
